@@ -7,20 +7,17 @@ Open Scope Z_scope.
 
 (* ---- OPB ---- *)
 
-(* the full claim: an independent reader of the OPB format gets, from the text
-   of ANY CNF or pseudo-Boolean object, the declared number of variables and,
-   constraint by constraint, the coefficients, literals, relation and degree
-   held in memory (a clause is  sum of its literals >= 1) *)
-Definition opb_roundtrip_statement : Prop :=
-  forall h names f, opb_valid f -> opb_printable f ->
-    parse_opb (print_opb h names f) = OOk (numvar f) (constraints f).
-
-(* proved when no header field / variable name contains a line break *)
-Theorem opb_roundtrip_partial : forall h names f,
-  opb_valid f -> opb_printable f -> header_ok h = true -> names_ok names = true ->
+(* print_opb is to_opb_file as it is now (after commit 7278321: every header field
+   and every variable name goes through _within_comment).
+   The full claim: an independent reader of the OPB format gets, from the text
+   of ANY CNF or pseudo-Boolean object, with ANY header and ANY variable names
+   (line breaks included), the declared number of variables and, constraint by
+   constraint, the coefficients, literals, relation and degree held in memory
+   (a clause is  sum of its literals >= 1) *)
+Theorem opb_roundtrip : forall h names f, opb_valid f -> opb_printable f ->
   parse_opb (print_opb h names f) = OOk (numvar f) (constraints f).
 Proof. exact opb_roundtrip_proved. Qed.
-Print Assumptions opb_roundtrip_partial.
+Print Assumptions opb_roundtrip.
 
 (* CNF objects satisfy the hypotheses as soon as their literals are in range *)
 Theorem opb_roundtrip_cnf_hypotheses : forall n F,
@@ -30,9 +27,10 @@ Print Assumptions opb_roundtrip_cnf_hypotheses.
 
 Example opb_roundtrip_nonvacuous :
   let f := FOpb 4 [mkpbc [(2, 3); (1, -1); (3, 4)] PGe 2; mkpbc [] PEq (-1); mkpbc [(1, 1); (2, -2)] PEq 2] in
-  let h := Some [(lit "description", lit "a % * formula")] in
-  opb_valid f /\ opb_printable f /\
-  parse_opb (print_opb h (Some [lit "X"; lit "* y"]) f) = OOk 4 (constraints f) /\
+  let h := Some [(lit "description", lit "a % * formula"); ([ "k"%char; CR; LF; "+"%char ], [ "1"%char; LF; ">"%char; CR; "="%char ])] in
+  let names := Some [lit "X"; lit "* y"; [ "a"%char; LF; "+"%char; "1"%char; " "%char; "x"%char; "1"%char; CR ]] in
+  opb_valid f /\ opb_printable f /\ header_ok h = false /\ names_ok names = false /\
+  parse_opb (print_opb h names f) = OOk 4 (constraints f) /\
   parse_opb (print_opb None None (FCnf 3 [[1; -2]; []; [3]])) =
     OOk 3 [mkpbc [(1, 1); (1, -2)] PGe 1; mkpbc [] PGe 1; mkpbc [(1, 3)] PGe 1].
 Proof.
@@ -45,7 +43,45 @@ Proof.
     unfold pbc_printable. repeat constructor; apply printable_million; vm_compute; discriminate.
 Qed.
 
-Theorem opb_header_newline_refuted : ~ opb_roundtrip_statement.
+(* shape: the first line declares the true counts, then comment lines (first
+   character '*'), then one line per constraint (first character not '*'),
+   for every header and every list of names;
+   opb_comment_lines = the lines of the comment part of the text *)
+Theorem opb_shape : forall h names f,
+  split_lines (print_opb h names f) =
+    opb_spec_line (numvar f) (len (constraints f)) :: opb_comment_lines h names ++
+    map constraint_line (constraints f) /\
+  Forall starts_star (opb_comment_lines h names) /\
+  Forall not_star (map constraint_line (constraints f)).
+Proof. exact opb_shape_proved. Qed.
+Print Assumptions opb_shape.
+
+(* no carriage return is written: a reader with universal newlines sees the same lines *)
+Theorem opb_no_carriage_return : forall h names f, no_cr (print_opb h names f) = true.
+Proof. exact print_opb_no_cr. Qed.
+Print Assumptions opb_no_carriage_return.
+
+(* without line breaks in fields and names the repair changed no byte, and the
+   comment lines are one per header field, "*", one per name, "*" *)
+Theorem print_opb_unchanged : forall h names f,
+  header_ok h = true -> names_ok names = true ->
+  print_opb h names f = print_opb_as_found h names f /\
+  opb_comment_lines h names = opb_comment_lines_as_found h names.
+Proof. exact OpbTextFacts.print_opb_unchanged. Qed.
+Print Assumptions print_opb_unchanged.
+
+(* ---- the OPB writer as it was found (before commit 7278321; defect D4) ---- *)
+Definition opb_roundtrip_as_found_statement : Prop :=
+  forall h names f, opb_valid f -> opb_printable f ->
+    parse_opb (print_opb_as_found h names f) = OOk (numvar f) (constraints f).
+
+Theorem opb_roundtrip_as_found_partial : forall h names f,
+  opb_valid f -> opb_printable f -> header_ok h = true -> names_ok names = true ->
+  parse_opb (print_opb_as_found h names f) = OOk (numvar f) (constraints f).
+Proof. exact opb_roundtrip_as_found_proved. Qed.
+Print Assumptions opb_roundtrip_as_found_partial.
+
+Theorem opb_header_newline_refuted : ~ opb_roundtrip_as_found_statement.
 Proof.
   intros H.
   specialize (H (Some [(lit "description", [ "x"%char; LF; "y"%char ])]) None (FCnf 1 [[1]])).
@@ -57,16 +93,23 @@ Proof.
 Qed.
 Print Assumptions opb_header_newline_refuted.
 
-(* shape: the first line declares the true counts, then comment lines (first
-   character '*'), then one line per constraint (first character not '*') *)
-Theorem opb_shape_partial : forall h names f, header_ok h = true -> names_ok names = true ->
-  split_lines (print_opb h names f) =
-    opb_spec_line (numvar f) (len (constraints f)) :: opb_comment_lines h names ++
+Theorem opb_shape_as_found_partial : forall h names f, header_ok h = true -> names_ok names = true ->
+  split_lines (print_opb_as_found h names f) =
+    opb_spec_line (numvar f) (len (constraints f)) :: opb_comment_lines_as_found h names ++
     map constraint_line (constraints f) /\
-  Forall starts_star (opb_comment_lines h names) /\
+  Forall starts_star (opb_comment_lines_as_found h names) /\
   Forall not_star (map constraint_line (constraints f)).
-Proof. exact opb_shape_proved. Qed.
-Print Assumptions opb_shape_partial.
+Proof. exact opb_shape_as_found_proved. Qed.
+Print Assumptions opb_shape_as_found_partial.
+
+(* a name that continues with something that looks like a constraint used to become
+   a constraint line of its own (the reader then finds one constraint too many);
+   now it stays inside the comment *)
+Theorem opb_name_newline_refuted : exists names,
+  parse_opb (print_opb_as_found None (Some names) (FCnf 1 [])) = OErr OWrongCount 0 /\
+  parse_opb (print_opb None (Some names) (FCnf 1 [])) = OOk 1 [].
+Proof. exists [[ "a"%char; LF ] ++ lit "+1 x1 >= 1"]. vm_compute. auto. Qed.
+Print Assumptions opb_name_newline_refuted.
 
 Theorem opb_first_line_counts : forall n m, 0 <= n -> 0 <= m -> small n -> small m ->
   parse_opb_spec (opb_spec_line n m) = Some (n, m).
@@ -104,6 +147,65 @@ Proof.
   vm_compute in E1. inversion E1; subst rows. vm_compute in E2. discriminate E2.
 Qed.
 Print Assumptions latex_rows_names_refuted.
+
+(* ---- from tokens to literals ---- *)
+
+(* the inverse of the literal table: a literal token decodes to the polarity and
+   the variable name of its literal -- for names that do not begin with \overline{
+   (any other name, white space or braces inside included) *)
+Theorem latex_lit_token_inverse : forall names l tok,
+  latex_names_decodable names = true ->
+  lit_token names l = Some tok ->
+  exists pl, lit_name names l = Some pl /\ decode_lit tok = Some pl /\
+             exists ch r, tok = ch :: r /\ is_digit ch = false.
+Proof. exact decode_lit_token. Qed.
+Print Assumptions latex_lit_token_inverse.
+
+(* the condition is needed: {\overline{x}_1} is both the positive literal of the
+   name "\overline{x}_1" and the negative literal of the name "x_1" *)
+Theorem latex_lit_token_ambiguous : exists names,
+  lit_token names 1 = lit_token names (-2) /\ lit_name names 1 <> lit_name names (-2).
+Proof. exists [lit "\overline{x}_1"; lit "x_1"]. split; [vm_compute; reflexivity|vm_compute; discriminate]. Qed.
+Print Assumptions latex_lit_token_ambiguous.
+
+(* the rows of the text, read as LITERALS: for every row split and both layouts
+   the align blocks decode to one row per clause / constraint, in order, and the
+   tokens of each row decode to exactly the literals of that clause / constraint
+   as (polarity, variable name) -- for constraints with the coefficient as shown
+   (none when it does not exceed 1), the relation and the bound; formula_litrows
+   is computed from the formula in memory and the names only *)
+Theorem latex_rows_literals : forall names split compact f t,
+  latex_names_ok names = true -> latex_names_decodable names = true ->
+  print_latex names split compact f = Some t ->
+  exists rows lrows,
+    rows_of_latex (is_opb f) t = (negb (nonempty rows), rows) /\
+    formula_litrows names f = Some lrows /\
+    map decode_lrow rows = map Some lrows.
+Proof. exact latex_rows_literals_proved. Qed.
+Print Assumptions latex_rows_literals.
+
+Theorem latex_literal_row_count : forall names f lrows,
+  formula_litrows names f = Some lrows -> length lrows = length (constraints f).
+Proof. exact formula_litrows_length. Qed.
+Print Assumptions latex_literal_row_count.
+
+Example latex_rows_literals_nonvacuous :
+  let names := [lit "x_1"; lit "y"; lit "z^2_3"; lit "_u_v"; lit "{a}b"] in
+  latex_names_ok names = true /\ latex_names_decodable names = true /\
+  formula_litrows names (FCnf 5 [[1; -2]; []; [-1; 3; -4]; [-3; -5; 5]]) =
+    Some [LClause [(true, lit "x_1"); (false, lit "y")]; LSquare;
+          LClause [(false, lit "x_1"); (true, lit "z^2_3"); (false, lit "_u_v")];
+          LClause [(false, lit "z^2_3"); (false, lit "{a}b"); (true, lit "{a}b")]] /\
+  option_map (fun t => map decode_lrow (snd (rows_of_latex false t)))
+             (print_latex names 2 true (FCnf 5 [[1; -2]; []; [-1; 3; -4]; [-3; -5; 5]])) =
+    Some [Some (LClause [(true, lit "x_1"); (false, lit "y")]); Some LSquare;
+          Some (LClause [(false, lit "x_1"); (true, lit "z^2_3"); (false, lit "_u_v")]);
+          Some (LClause [(false, lit "z^2_3"); (false, lit "{a}b"); (true, lit "{a}b")])] /\
+  option_map (fun t => map decode_lrow (snd (rows_of_latex true t)))
+             (print_latex names 35 false (FOpb 5 [mkpbc [(2, -1); (1, 3); (12, -3)] PGe 2; mkpbc [] PEq 0])) =
+    Some [Some (LConstraint [(lit "2", (false, lit "x_1")); ([], (true, lit "z^2_3")); (lit "12", (false, lit "z^2_3"))] PGe (lit "2"));
+          Some (LConstraint [] PEq (lit "0"))].
+Proof. vm_compute. repeat split. Qed.
 
 (* one row per clause / constraint *)
 Theorem latex_row_count : forall names f rows,
